@@ -103,10 +103,11 @@ Section WithHash.
   Lemma equal_if t t' : t = t' -> h (enc t) = h (enc t').
   Proof. intros ->. reflexivity. Qed.
 
-  Lemma equal_iff : (forall x y, h x = h y -> x = y) -> forall t t', h (enc t) = h (enc t') <-> t = t'.
+  (* "up to collisions": no collision between the two strings that are hashed *)
+  Lemma equal_iff t t' : inj_on h [enc t; enc t'] -> (h (enc t) = h (enc t') <-> t = t').
   Proof.
-    intros Hinj t t'. split; [|apply equal_if].
-    intros E. apply enc_inj, Hinj, E.
+    intros Hinj. split; [|apply equal_if].
+    intros E. apply enc_inj, Hinj; [left; reflexivity | right; left; reflexivity | exact E].
   Qed.
 
   (* whatever the hash, the old encoding gives two different value tuples of the same arity the same value *)
@@ -331,43 +332,58 @@ Proof.
   - apply same_partb_complete; [apply N.eqb_eq | apply liststr_eqb_spec].
 Qed.
 
+(* "up to 64-bit hash collisions", made precise: no collision among the strings hashed for this frame and combination.
+   (Global injectivity of h can never hold of a 16-hex-digit digest; this can, and is what a run of the code relies on.) *)
+Definition no_collision (h : str -> cell) (df : frame) (comb : list str) : Prop :=
+  inj_on h (map enc (tuples df comb)).
+
 Section Score.
   Variable h : str -> cell.
-  Hypothesis h_inj : forall x y, h x = h y -> x = y.
 
   (* the new column partitions the rows exactly as the explicit value tuples do *)
-  Lemma feature_partition df comb : same_part (feature_values h df comb) (tuples df comb).
+  Lemma feature_partition df comb : incl comb (names df) -> no_collision h df comb ->
+    same_part (feature_values h df comb) (tuples df comb).
   Proof.
-    unfold feature_values. apply same_part_map_inj. intros x y _ _ E. apply enc_inj, h_inj, E.
+    intros _ H. unfold feature_values. apply same_part_map_inj. intros x y Hx Hy E.
+    apply enc_inj. apply H; auto using in_map.
   Qed.
 
+  Lemma tuples_nth_in df comb i : i < nrows df -> In (map (fun c => nth i c []) (map (getcol df) comb)) (tuples df comb).
+  Proof. intros Hi. eapply nth_error_In. unfold tuples. apply rows_of_nth. exact Hi. Qed.
+
   (* row-level reading: two rows get equal values iff they agree on every constituent feature *)
-  Lemma rows_iff df comb i j : i < nrows df -> j < nrows df ->
+  Lemma rows_iff df comb i j : incl comb (names df) -> no_collision h df comb -> i < nrows df -> j < nrows df ->
     (nth_error (feature_values h df comb) i = nth_error (feature_values h df comb) j
      <-> forall f, In f comb -> nth i (getcol df f) [] = nth j (getcol df f) []).
   Proof.
-    intros Hi Hj. unfold feature_values, tuples. rewrite !nth_error_map, !rows_of_nth by assumption. cbn.
-    rewrite !map_map. split.
-    - intros E. inversion E as [E']. apply h_inj, enc_inj in E'.
-      apply map_ext_in_iff. exact E'.
-    - intros H. do 3 f_equal. apply map_ext_in_iff. exact H.
+    intros _ Hnc Hi Hj. pose proof (tuples_nth_in df comb i Hi) as Ii. pose proof (tuples_nth_in df comb j Hj) as Ij.
+    unfold feature_values, tuples. rewrite !nth_error_map, !rows_of_nth by assumption. cbn.
+    split.
+    - intros E. inversion E as [E']. apply Hnc in E'; [|apply in_map; assumption|apply in_map; assumption].
+      apply enc_inj in E'. rewrite !map_map in E'. apply map_ext_in_iff. exact E'.
+    - intros H. do 3 f_equal. rewrite !map_map. apply map_ext_in_iff. exact H.
   Qed.
 
   (* hence any scorer that sees only the partition scores the interaction feature as it scores the tuples,
      whatever (injective on the occurring values) category codes are used on either side *)
   Lemma score_equal {S} (score : list N -> list N -> S) (cH : cell -> N) (cT : list cell -> N) df comb T :
+    incl comb (names df) -> no_collision h df comb ->
     partition_invariant score ->
     inj_on cH (feature_values h df comb) -> inj_on cT (tuples df comb) ->
     score (map cH (feature_values h df comb)) T = score (map cT (tuples df comb)) T.
   Proof.
-    intros Hs HcH HcT. apply Hs. unfold feature_values in *. rewrite map_map.
+    intros _ Hnc Hs HcH HcT. apply Hs. unfold feature_values in *. rewrite map_map.
     apply same_part_maps. intros x y Hx Hy. split.
     - intros E. apply HcH in E;
         [|apply (in_map (fun r => h (enc r))); assumption|apply (in_map (fun r => h (enc r))); assumption].
-      apply h_inj, enc_inj in E. subst. reflexivity.
+      apply Hnc in E; [|apply in_map; assumption|apply in_map; assumption]. apply enc_inj in E. subst. reflexivity.
     - intros E. apply HcT in E; auto. subst. reflexivity.
   Qed.
 End Score.
+
+(* the hypothesis is satisfiable: the identity "hash" never collides, on any frame *)
+Lemma no_collision_id df comb : no_collision (fun x => x) df comb.
+Proof. intros x y _ _ E. exact E. Qed.
 
 (* the old encoding breaks the partition on a 2-row frame, for every hash *)
 Definition witness_frame : frame :=
